@@ -151,7 +151,7 @@ def base_atoms(tier, rng):
            "cat/pkg:0", "cat/pkg:1.2", "cat/pkg:0/1", "cat/pkg:0=", "cat/pkg:0/1=", "cat/pkg:*", "cat/pkg:=", "=cat/pkg-1:2", "cat/pkg::repo", "cat/pkg:0::r_e-p", "=cat/pkg-1:0/1::gentoo[a]",
            "cat/pkg[a]", "cat/pkg[-a]", "cat/pkg[a,b]", "cat/pkg[a?]", "cat/pkg[!a?]", "cat/pkg[a=]", "cat/pkg[!a=]", "cat/pkg[a(+)]", "cat/pkg[-a(-)]", "cat/pkg[a(+)?,!b(-)=]", "!!>=cat/pkg-1:0[a,-b]",
            "a/b", "c.d/e+f", "_c/_p", "cat/font-100dpi", "cat/p-r1x", "=cat/pkg-1-1", "cat/pkg-1", "=cat/foo-1-bar-2", "~cat/pkg-1_p-r0", "=a/b-0-r00", "cat/pkg[a_b-c+d@e]", "=x/y-1.02.003b",
-           "cat/foo-bar-1-r3", "=cat/foo-bar-1-r3-2.0", "cat/foo-1-bar-r3", "media-fonts/font-100-dpi-r2", "=cat/a-b-c-d-1", "cat/a-1-b-2-r1x"]
+           "=cat/1-11", "cat/7", "=cat/2-3-r11", "=1/2-3", "cat/foo-bar-1-r3", "=cat/foo-bar-1-r3-2.0", "cat/foo-1-bar-r3", "media-fonts/font-100-dpi-r2", "=cat/a-b-c-d-1", "cat/a-1-b-2-r1x"]
     if tier != "quick":
         for n in names:
             for v in vers:
